@@ -419,6 +419,9 @@ def run_check(pid, module, tier, seed):
                         break
         except InfraError as ex:
             log("search: infrastructure failure: %s" % ex)
+        except Exception as ex:  # noqa: BLE001 - a crash of the search must not hide the broken tie
+            import traceback
+            log("search stage crashed: %s\n%s" % (ex, traceback.format_exc()[-1500:]))
         ctx.searching = False
 
     exit_code = 0
